@@ -92,5 +92,6 @@ def fault_summary(prop, records):
         "spawner_delayed (spawnerlast)": sum(1 for r in records if r["policy"] == "spawnerlast"),
         "closure_panic_fired": sum(r.get("fired", 0) for r in records),
         "runs_ending_in_panic": sum(1 for r in records if r.get("panicked")),
+        "token_holder_set_aside (blocked in an OS primitive outside the seams; 0 expected on the pinned tree)": sum(r.get("rescues", 0) for r in records),
     }
     return out
